@@ -28,7 +28,7 @@ class LogCatcher(logging.Handler):
 
 
 class Harness:
-    def __init__(self, addons=(), n_regions=1, swallow=True, with_logger=True, same_ip=False, addon_scripts=()):
+    def __init__(self, addons=(), n_regions=1, swallow=True, with_logger=True, same_ip=False, addon_scripts=(), login_extras=None):
         from hippolyzer.lib.base.datatypes import UUID
         from hippolyzer.lib.base.message.udpserializer import UDPMessageSerializer
         from hippolyzer.lib.proxy.addons import AddonManager
@@ -56,10 +56,10 @@ class Harness:
                 def log_eq_event(self, session, region, event):
                     h.logged.append(("eq", event.get("message")))
             self.session_manager.message_logger = _Logger()
-        self.session = self.session_manager.create_session({
+        self.session = self.session_manager.create_session(dict({
             "session_id": UUID.random(), "secure_session_id": UUID.random(), "agent_id": UUID.random(),
             "circuit_code": 1234, "sim_ip": self.region_addrs[0][0], "sim_port": self.region_addrs[0][1],
-            "region_x": 0, "region_y": 123, "seed_capability": "https://test.localhost:4/foo"})
+            "region_x": 0, "region_y": 123, "seed_capability": "https://test.localhost:4/foo"}, **(login_extras or {})))
         for i, addr in enumerate(self.region_addrs[1:]):
             self.session.register_region(addr, handle=1000 + i, seed_url="https://test.localhost:4/r%d" % i)
         self.transport = RecTransport()
